@@ -407,7 +407,9 @@ func (g *gen) execFunc(fr *frame, entry *node, st0 *State) []exitRec {
 					cur.assume(t)
 				}
 			} else {
-				g.errorf("%s: loop %d (at %s) has no invariant", g.name, ord, g.pos(firstPos(b)))
+				// no invariant given: the loop is cut with the invariant "true" (everything it may
+				// modify is unknown afterwards) - sound, and usually too weak for what follows
+				g.used[fmt.Sprintf("note:loop %d of %s has no invariant and is cut with 'true'", ord, fn.Name())] = true
 			}
 		}
 
